@@ -334,8 +334,13 @@ Definition canon_encode_with (stored : N) (m : msg) : list Z := bres zs (enc_fra
    says a decoded message does not change afterwards and no step depends on an earlier one. *)
 Inductive hop : Set :=
 | HDec (bs : list N)
-| HEnc (rs : list (res addr)) (m : msg).
+| HEnc (rs : list (res addr)) (m : msg)
+| HInspect (m : msg).      (* the parameters of a message object read back, e.g. between two encodes of it *)
 Definition canon_hop (h : hop) : list Z :=
-  match h with HDec bs => canon_decode bs | HEnc rs m => canon_build_encode rs m end.
+  match h with
+  | HDec bs => canon_decode bs
+  | HEnc rs m => canon_build_encode rs m
+  | HInspect m => canon_msg m
+  end.
 Definition canon_history (hs : list hop) : list Z :=
   flat_map (fun h => zlen (canon_hop h) :: canon_hop h) hs.
